@@ -173,3 +173,62 @@ def run(facts, rep):
                           where='yui-homology/src/utils/chain_reducer.rs')
         else:
             rep.ok('E18.consistent-step', inst, 'matches the role table')
+
+
+def check_complex_glue(facts, rep):
+    """R9 (C08, "reduced complex reuses the original d through the transfer maps"): the matrix of d_i has column j =
+    coordinates *in degree i + d_deg* of d(i, generator j of degree i), its shape is (rank C_{i+d}, rank C_i); reduced()
+    keeps d_map / d_deg and replaces the summand of degree i by (same raw generators, reduced rank, no torsion,
+    original transform followed by the reducer's transform of the same degree)."""
+    C = 'yui_homology::conc::complex::ChainComplexBase::<I, X, R>::'
+
+    def dk(t):
+        return re.sub(r'\^_ref__', '^', re.sub(r'#\d+\.\d+', '', show(t, -1000))).replace('&', '').replace('*', '')
+
+    def rets(name):
+        b = facts.bodies.get(C + name)
+        if b is None:
+            return None
+        rep.saw(b)
+        return sorted({dk(p.ret) for p in SymEx(b).run() if p.end == 'return'})
+    want = {
+        'd_matrix_col': ['vectorize(index(arg1, add(arg2, arg1.d_deg)), d(arg1, arg2, gen(index(arg1, arg2), arg3)))'],
+        'd_matrix::{closure#0}': ['d_matrix_col(arg1.^self, arg1.^i, arg2)'],
+        'reduced::{closure#0}': ['new(clone(raw_gens(index(arg1.^self, arg2))), unwrap(rank(arg1.^r, arg2)), new(), merged(trans(index(arg1.^self, arg2)), unwrap(trans(arg1.^r, arg2))))'],
+    }
+    for name, w in want.items():
+        got = rets(name)
+        inst = 'ChainComplex::%s|as tabulated' % name
+        if got is None:
+            rep.indet('E18.R9: ChainComplex::%s not found' % name)
+        elif got == w:
+            rep.ok('E18.R9-complex-glue', inst, w[0][:110])
+        else:
+            g = got[0] if got else ''
+            bad = None
+            if name == 'd_matrix_col' and re.match(r'vectorize\(index\(arg1, .*\), d\(arg1, .*, gen\(index\(arg1, .*\), arg3\)\)\)$', g):
+                bad = 'column j of d_i is %s: the generator must come from degree i and the coordinates be taken in degree i + d_deg' % g[:200]
+            if name == 'reduced::{closure#0}' and re.match(r'new\(clone\(raw_gens\(index\(arg1\.\^self, arg2\)\)\), .*\)$', g):
+                if 'merged(unwrap(trans(arg1.^r, arg2)), trans(index(arg1.^self, arg2)))' in g:
+                    bad = 'the reducer transform is composed *before* the original one (%s)' % g[-140:]
+                elif not g.endswith('merged(trans(index(arg1.^self, arg2)), unwrap(trans(arg1.^r, arg2))))') or 'unwrap(rank(arg1.^r, arg2))' not in g:
+                    bad = 'the reduced summand of degree i is %s' % g[:260]
+            if bad:
+                rep.violation('E18.R9-complex-glue', inst, bad, where='yui-homology/src/conc/complex.rs')
+            else:
+                rep.indet('E18.R9: ChainComplex::%s outside the recognised fragment: %s' % (name, [x[:200] for x in got]))
+    # shape of d_matrix and reuse of d_map
+    dm = rets('d_matrix')
+    inst = 'ChainComplex::d_matrix|shape (rank C_{i+d}, rank C_i)'
+    if dm and len(dm) == 1 and re.match(r'from_col_vecs\(rank\(index\(arg1, add\(arg2, arg1\.d_deg\)\)\), collect\(map\((into_par_iter\()?Range::Range\{start: 0, end: rank\(index\(arg1, arg2\)\)\}\)?, closure<\{closure#0\}>\)\)\)$', dm[0]):
+        rep.ok('E18.R9-complex-glue', inst, 'columns 0..rank C_i, rows rank C_{i+d}')
+    elif dm and len(dm) == 1 and dm[0].startswith('from_col_vecs(rank(index(arg1, '):
+        rep.violation('E18.R9-complex-glue', inst, 'd_matrix is assembled as %s' % dm[0][:260], where='yui-homology/src/conc/complex.rs')
+    else:
+        rep.indet('E18.R9: d_matrix outside the recognised fragment: %s' % dm)
+    rd = rets('reduced')
+    inst = 'ChainComplex::reduced|keeps d_deg and d_map'
+    if rd and len(rd) == 1 and re.match(r'ChainComplexBase::ChainComplexBase\{summands: generate\(support\(arg1\.summands\), closure<\{closure#0\}>\), d_deg: arg1\.d_deg, d_map: \(clone\(arg1\.d_map\) as .*\)\}$', rd[0]):
+        rep.ok('E18.R9-complex-glue', inst, 'same d through the new summands')
+    else:
+        rep.indet('E18.R9: reduced outside the recognised fragment: %s' % (rd and [x[:200] for x in rd]))
